@@ -202,12 +202,18 @@ def run_chi2(A, b, s, conv, order, layout='plain'):
 EPS = 2.220446049250313e-16
 
 
-def chi2_tol(chi, maxbs, n):
-    """Absolute tolerance for a float chi-square, tied to the RESIDUAL scale and not to |b*sqivar|^2: 1e-9 relative,
-    plus the rounding of the weighted residuals (each carries ~ulp(max |b s|), entering chi2 to first order through
-    sqrt(chi2) and to second order for an exact fit, with 1e-11 ~ eps * conditioning of these small systems)."""
+def chi2_tol(chi, Q):
+    """LinSolve: THE COMPARISON RULE for chi-square.  chi2 is a sum of squared weighted residuals, so it is judged
+    relative to itself plus ROUND-OFF level multiples of its natural scale Q = sum_i w_i (|b_i| + scale_i)^2 (each
+    weighted residual carries ~eps * sqrt(w_i) (|b_i| + scale_i); first order through sqrt(chi2), second order for an
+    exact fit; 1e-11 ~ eps * conditioning of these systems) - not Tol * Q, which would hide a cancelling evaluation."""
     chi = max(float(chi), 0.0)
-    return 1e-9 * chi + 256 * EPS * maxbs * np.sqrt(chi) * n + n * (1e-11 * maxbs) ** 2 + 1e-300
+    return 1e-9 * chi + 256 * EPS * np.sqrt(chi * Q) + 1e-22 * Q + 1e-300
+
+
+def nat_q(b, s, sy):
+    """Q = sum_i w_i (|b_i| + scale_i)^2 from the natural scales of the fitted values."""
+    return float(sum((float(si) ** 2) * (abs(float(bi)) + float(yi)) ** 2 for bi, si, yi in zip(b, s, sy)))
 
 
 def closef(obs, e, tol=RTOL):
@@ -234,7 +240,8 @@ def transform(c, exp, variant):
     TLC's, rescaled / shifted as the laws HomogeneousInA/B/S and ModelShift (TLC-checked) prescribe."""
     A, b, s = c['A'], c['b'], c['s']
     e = {'acoeff': [fr(q) for q in exp['acoeff']], 'yfit': [fr(q) for q in exp['yfit']], 'chi2': fr(exp['chi2']),
-         'dof': exp['dof'], 'covar': [[fr(q) for q in row] for row in exp['covar']], 'var': [fr(q) for q in exp['var']]}
+         'dof': exp['dof'], 'covar': [[fr(q) for q in row] for row in exp['covar']], 'var': [fr(q) for q in exp['var']],
+         'sx': [fr(q) for q in exp['nat']['x']], 'sy': [fr(q) for q in exp['nat']['y']]}       # TLC's exact natural scales
     if isinstance(variant, (list, tuple)):       # ('units', ka, kb, ks)
         v = {'ka': variant[1], 'kb': variant[2], 'ks': variant[3], 'kz': None}
     else:
@@ -248,6 +255,9 @@ def transform(c, exp, variant):
         b = [bi + azi for bi, azi in zip(b, az)]
         e['acoeff'] = [x + zj for x, zj in zip(e['acoeff'], z)]
         e['yfit'] = [y + azi for y, azi in zip(e['yfit'], az)]
+        # natural scale of the shifted system: within scale(b) of 2^kz * scale(A.z) (triangle inequality), both TLC's
+        e['sx'] = [x + fr(q) * 2 ** v['kz'] for x, q in zip(e['sx'], exp['natz']['x'])]
+        e['sy'] = [y + fr(q) * 2 ** v['kz'] for y, q in zip(e['sy'], exp['natz']['y'])]
     fa, fb, fs = Fraction(2) ** v['ka'], Fraction(2) ** v['kb'], Fraction(2) ** v['ks']
     if min(v['ka'], v['kb'], v['ks']) >= 0:
         A2 = [[int(fa) * x for x in row] for row in A]
@@ -259,6 +269,8 @@ def transform(c, exp, variant):
         s2 = [float(x) * 2.0 ** v['ks'] for x in s]
     e['acoeff'] = [x * fb / fa for x in e['acoeff']]
     e['yfit'] = [y * fb for y in e['yfit']]
+    e['sx'] = [x * fb / fa for x in e['sx']]          # LinSolve!ScaleHomogeneous
+    e['sy'] = [y * fb for y in e['sy']]
     e['chi2'] = e['chi2'] * (fb * fs) ** 2
     e['covar'] = [[x / (fa * fs) ** 2 for x in row] for row in e['covar']]
     e['var'] = [x / (fa * fs) ** 2 for x in e['var']]
@@ -266,26 +278,24 @@ def transform(c, exp, variant):
 
 
 def wls_mismatch(obs, e, b, s):
-    """First attribute that differs from the exact record e (Fractions), or None."""
+    """First attribute that differs from the exact record e (Fractions) by more than THE COMPARISON RULE of
+    LinSolve.tla allows (|obs - exact| <= RTOL * max(|exact|, natural scale)), or None."""
     if obs['err']:
         return 'exception ' + obs['exc']
     M, N = len(e['acoeff']), len(e['yfit'])
-    # vectors are compared relative to their own largest entry (round-off of a solver scales with the vector)
-    sa = max(abs(float(x)) for x in e['acoeff']) or 1.0
-    if len(obs['acoeff']) != M or any(not (np.isfinite(o) and abs(o - float(x)) <= RTOL * sa)
-                                      for o, x in zip(obs['acoeff'], e['acoeff'])):
+
+    def agrees(o, x, sc):
+        return bool(np.isfinite(o)) and abs(o - float(x)) <= RTOL * max(abs(float(x)), float(sc))
+    if len(obs['acoeff']) != M or any(not agrees(o, x, sc) for o, x, sc in zip(obs['acoeff'], e['acoeff'], e['sx'])):
         return 'acoeff'
-    sy = max(abs(float(x)) for x in e['yfit']) or 1.0
-    if len(obs['yfit']) != N or any(not (np.isfinite(o) and abs(o - float(x)) <= RTOL * sy)
-                                    for o, x in zip(obs['yfit'], e['yfit'])):
+    if len(obs['yfit']) != N or any(not agrees(o, x, sc) for o, x, sc in zip(obs['yfit'], e['yfit'], e['sy'])):
         return 'yfit'
-    maxbs = max(abs(float(bi) * float(si)) for bi, si in zip(b, s))
-    if not (np.isfinite(obs['chi2']) and abs(obs['chi2'] - float(e['chi2'])) <= chi2_tol(e['chi2'], maxbs, N)):
+    if not (np.isfinite(obs['chi2']) and abs(obs['chi2'] - float(e['chi2'])) <= chi2_tol(e['chi2'], nat_q(b, s, e['sy']))):
         return 'chi2'
     if obs['dof'] != e['dof']:
         return 'dof'
     if len(obs['covar']) != M or any(len(r) != M for r in obs['covar']) or \
-            any(abs(obs['covar'][j][k] - float(e['covar'][j][k])) > RTOL * max(abs(float(e['covar'][j][j])), abs(float(e['covar'][k][k])))
+            any(abs(obs['covar'][j][k] - float(e['covar'][j][k])) > RTOL * np.sqrt(float(e['covar'][j][j]) * float(e['covar'][k][k]))
                 for j in range(M) for k in range(M)):
         return 'covar'
     if len(obs['var']) != M or any(abs(o - float(x)) > RTOL * float(x) for o, x in zip(obs['var'], e['var'])):
@@ -818,6 +828,7 @@ def seed_sensitive_data(ctx, rng, nn, hist):
 
 def judge_traces(ctx, rep, traces, info, excs, label):
     bad = validate_traces(ctx, traces, label)
+    ctx_bad = bad
     for t, tr in enumerate(traces):
         ctx.validated()
         ctx.evaluated(len(tr['events']), 'hmf-events-' + info[t]['how'])
@@ -837,6 +848,49 @@ def judge_traces(ctx, rep, traces, info, excs, label):
         kk = len(tr['events']) if k is None else k
         rep(cls, {'what': 'HMF run (%s) %s' % (info[t], what), 'kind': 'hmf', 'info': info[t], 'event': kk,
                   'events': tr['events'][:kk + 1][-6:]})
+    return ctx_bad
+
+
+def hmf_selftest(ctx, traces, accepted):
+    """Binding self-test of the trace specification (mode hmf): in copies of accepted traces ONE event is falsified
+    (chi-square increase, gradient, model change, non-unit rms, negative factor, non-identical twin, modified inputs,
+    a dropped step); every such trace must be refused at (or before) that event, else the machinery is at fault."""
+    import copy
+    fals, where = [], []
+    kinds = [('astep', 'dbad', 50), ('astep', 'grad', 7), ('gstep', 'grad', 7), ('reorder', 'dmodel', 9),
+             ('norm', 'rms', 5), ('norm', 'dmodel', 5), ('astepnn', 'neg', True), ('gstepnn', 'neg', True),
+             ('astepnn', 'dbad', 50), ('done', 'same', False), ('done', 'untouched', False), ('gstep', 'drop', None),
+             ('norm', 'drop', None)]
+    n = 0
+    for t in accepted:
+        tr = traces[t]
+        for (op, field, val) in kinds:
+            idx = [k for k, e in enumerate(tr['events']) if e['op'] == op]
+            if not idx or (field == 'untouched' and tr['nn']) or (op == 'gstep' and field == 'dbad' and tr['eps']):
+                continue
+            k = idx[-1] if op != 'astepnn' else idx[len(idx) // 2]
+            c = copy.deepcopy(tr)
+            c['twin'] = 0
+            if field == 'drop':
+                del c['events'][k]
+                if k >= len(c['events']):
+                    continue
+            else:
+                c['events'][k][field] = val
+            fals.append(c)
+            where.append(k)
+            n += 1
+        if n >= 60:
+            break
+    if not fals:
+        raise core.MachineryError('HMF binding self-test: nothing to falsify')
+    bad = validate_traces(ctx, fals, 'Trace_LinSolve[hmf self-test %d traces]' % len(fals))
+    missed = [j for j in range(len(fals)) if j not in bad or bad[j] > where[j]]
+    ctx.cov['parts']['selftest_hmf_traces'] = {'falsified_traces': len(fals), 'refused': len(fals) - len(missed)}
+    if missed:
+        j = missed[0]
+        raise core.MachineryError('HMF binding self-test: %d of %d falsified traces were accepted, e.g. event %d = %r'
+                                  % (len(missed), len(fals), where[j], fals[j]['events'][min(where[j], len(fals[j]['events']) - 1)]))
 
 
 def hmf_traces(ctx, rep, behaviours):
@@ -893,7 +947,11 @@ def hmf_traces(ctx, rep, behaviours):
                     add({'how': 'solve', 'N': 30, 'M': 60, 'R': 3, 'K': 4, 'nn': nn, 'epsilon': None, 'hist': hist,
                          'seed': 0 if seed == 0 else rng.randrange(1, 10**6), 'niter': 2,
                          'dseed': seed_sensitive_data(ctx, rng, nn, hist)})
-    judge_traces(ctx, rep, traces, infos, excs, 'Trace_LinSolve[hmf %d traces]' % len(traces))
+    bad = judge_traces(ctx, rep, traces, infos, excs, 'Trace_LinSolve[hmf %d traces]' % len(traces))
+    accepted = [t for t in range(len(traces)) if t not in bad and excs[t] is None]
+    if accepted:                                 # (nothing to self-test on when every trace is a violation)
+        pick = [t for t in accepted if infos[t]['how'] == 'stepped'][:4] + [t for t in accepted if infos[t]['how'] == 'solve' and not infos[t]['nn']][:3] + [t for t in accepted if infos[t]['how'] == 'solve' and infos[t]['nn']][:3]
+        hmf_selftest(ctx, traces, pick)
     ctx.sample({'hmf_trace': infos[0], 'events_head': traces[0]['events'][:3]})
     ctx.sample({'hmf_trace': infos[-1], 'n_events': len(traces[-1]['events']), 'last_event': traces[-1]['events'][-1]})
     return len(traces)
@@ -928,24 +986,49 @@ def record_wls(rng):
     return wls_record(A, b, s, conv, attr_order(rng), rng.choice(LAYOUTS))
 
 
+def measured_nat_scale(A, b, s):
+    """The natural scales of LinSolve!NatScale measured in floating point (TLC checks them against the exact ones)."""
+    Aa, ba, w = np.array(A, dtype=float), np.array(b, dtype=float), np.array(s, dtype=float) ** 2
+    G = Aa.T @ (Aa * w[:, None])
+    sx = np.abs(np.linalg.inv(G)) @ (np.abs(Aa).T @ (w * np.abs(ba)))
+    return sx, np.abs(Aa) @ sx
+
+
 def wls_record(A, b, s, conv, order, layout='plain'):
     obs = run_chi2(A, b, s, conv, order, layout)
     rec = {'kind': 'wls', 'A': A, 'b': b, 's': s, 'conv': conv, 'order': order, 'layout': layout}
+    bad = {'err': True, 'dev': 0, 'natx': [], 'naty': [], 'acoeff': [], 'yfit': [], 'chi2': [0, 1], 'dof': 0, 'covar': [], 'var': []}
     if obs['err']:
-        rec['ret'] = {'err': True, 'exact': False, 'acoeff': [], 'yfit': [], 'chi2': [0, 1], 'dof': 0, 'covar': [], 'var': []}
-        rec['exc'] = obs['exc']
+        rec['ret'], rec['exc'] = bad, obs['exc']
         return rec
-    exact = True
+    try:
+        sx, sy = measured_nat_scale(A, b, s)
+    except np.linalg.LinAlgError:                # not full rank: TLC says "skip"
+        rec['ret'], rec['exc'] = dict(bad, err=False), ''
+        return rec
+    dev = 0
 
-    def q(v):
-        nonlocal exact
-        n, d, ok = small_rational(v)
-        exact = exact and ok
+    def q(v, scale, tol=XTOL):
+        """the nearby small rational, and how far (units of tol * max(|q|, natural scale)) the float is from it"""
+        nonlocal dev
+        n, d, _ = small_rational(v)
+        ref = tol * max(abs(n / d), float(scale))
+        diff = abs(float(v) - n / d) if np.isfinite(v) else np.inf
+        dev = max(dev, 0 if diff == 0 else (CLIP if ref == 0 else units(diff, ref)))
         return [n, d]
-    ret = {'err': False, 'acoeff': [q(v) for v in obs['acoeff']], 'yfit': [q(v) for v in obs['yfit']],
-           'chi2': q(obs['chi2']), 'dof': obs['dof'], 'covar': [[q(v) for v in row] for row in obs['covar']],
-           'var': [q(v) for v in obs['var']]}
-    ret['exact'] = exact
+    ret = {'err': False, 'acoeff': [q(v, sc) for v, sc in zip(obs['acoeff'], sx)],
+           'yfit': [q(v, sc) for v, sc in zip(obs['yfit'], sy)], 'dof': obs['dof']}
+    chi = small_rational(obs['chi2'])
+    ret['chi2'] = [chi[0], chi[1]]
+    dchi = abs(obs['chi2'] - chi[0] / chi[1]) if np.isfinite(obs['chi2']) else np.inf
+    dev = max(dev, 0 if dchi == 0 else units(dchi, chi2_tol(chi[0] / chi[1], nat_q(b, s, sy))))
+    cv = np.array(obs['covar'], dtype=float)
+    dg = np.sqrt(np.abs(np.diag(cv)))
+    ret['covar'] = [[q(cv[j][k], dg[j] * dg[k]) for k in range(cv.shape[1])] for j in range(cv.shape[0])]
+    ret['var'] = [q(v, abs(v)) for v in obs['var']]
+    ret['natx'] = [list(small_rational(v)[:2]) for v in sx]
+    ret['naty'] = [list(small_rational(v)[:2]) for v in sy]
+    ret['dev'] = int(dev)
     rec['ret'] = ret
     rec['exc'] = ''
     return rec
@@ -994,7 +1077,8 @@ def wlsf_record(mode, N, M, dseed):
     R = float(np.sum(res ** 2))
     maxbs = float(np.max(np.abs(b * sq)))
     rec['neg'] = bool(not (chi2 >= 0))
-    rec['disc'] = units(chi2 - R, 1e-6 * R + chi2_tol(R, maxbs, N))
+    _, sy = measured_nat_scale(A, b, sq)
+    rec['disc'] = units(chi2 - R, 1e-6 * R + chi2_tol(R, nat_q(b, sq, sy)))
     w = sq ** 2
     gr = A.T @ (w * (b - yfit))
     scl = np.abs(A.T) @ (w * np.abs(b)) + np.abs(A.T) @ (w * np.abs(yfit))
@@ -1096,6 +1180,87 @@ def pca_record(N, maxiter, niter, nkeep, dseed):
     return rec
 
 
+def falsify(rec, rng):
+    """A copy of an accepted record with ONE observed field falsified beyond every tolerance, or None."""
+    import copy
+    r = copy.deepcopy(rec)
+    if r['kind'] == 'wls':
+        if r['ret']['err'] or not r['ret']['acoeff'] or not r['ret'].get('natx'):
+            return None                          # (skipped: not full rank)
+        m = rng.randrange(6)
+        if m == 0:
+            q = r['ret']['acoeff'][rng.randrange(len(r['ret']['acoeff']))]
+            q[0], q[1] = Fraction(q[0], q[1]).numerator * 3 + 1, Fraction(q[0], q[1]).denominator * 3   # another rational
+        elif m == 1:
+            r['ret']['chi2'] = [r['ret']['chi2'][0] + 1, r['ret']['chi2'][1]]
+        elif m == 2:
+            r['ret']['dof'] += 1
+        elif m == 3:
+            r['ret']['dev'] = 5
+        elif m == 4:
+            q = r['ret']['var'][0]
+            q[0] = q[0] + 1
+        else:
+            q = r['ret']['yfit'][rng.randrange(len(r['ret']['yfit']))]
+            q[0] = q[0] + 1
+        for key in ('acoeff', 'yfit', 'var'):      # keep them in lowest terms (the record format)
+            r['ret'][key] = [[Fraction(a, b).numerator, Fraction(a, b).denominator] for a, b in r['ret'][key]]
+        c = Fraction(*r['ret']['chi2'])
+        r['ret']['chi2'] = [c.numerator, c.denominator]
+    elif r['kind'] == 'wlsf':
+        if r['err']:
+            return None
+        m = rng.randrange(5)
+        if m == 0:
+            r['neg'] = True
+        elif m == 1:
+            r['disc'] = 5
+        elif m == 2:
+            r['grad'] = 7
+        elif m == 3:
+            r['cinv'] = 3
+        else:
+            r['dof'] += 1
+    elif r['kind'] == 'pcomp':
+        if r['err'] or r['nan'] or not r['ev']:
+            return None
+        m = rng.randrange(4)
+        if m == 0 and r['ev'][0] > r['ev'][-1]:
+            r['ev'] = r['ev'][::-1]              # eigenvalue order
+        elif m == 1:
+            r['var'][0] += 1000
+        elif m == 2:
+            r['der'][0][0] += 1000000
+        else:
+            r['psq'][0][0] += 5000               # the outer product no longer reproduces the matrix
+            r['p'][0][0] += 50000
+    else:
+        if r['err'] or not r['proj']:
+            return None
+        m = rng.randrange(3)
+        if m == 0:
+            r['proj'][0] = 9
+        elif m == 1 and len(r['ev']) >= 2 and r['ev'][0] > r['ev'][-1]:
+            r['ev'] = r['ev'][::-1]
+        else:
+            r['usemask'][0] += 1
+    return r
+
+
+def recorded_selftest(ctx, accepted, rng):
+    """Binding self-test of Trace_LinSolve (mode recs): accepted records with one field falsified must all be rejected."""
+    per = {'wls': 80, 'wlsf': 40, 'pcomp': 80, 'pca': 12}
+    fals = []
+    for rec in accepted:
+        if per.get(rec['kind'], 0) > 0:
+            f = falsify(rec, rng)
+            if f is not None:
+                fals.append(f)
+                per[rec['kind']] -= 1
+    if accepted:                                 # (nothing to self-test on when every record is a violation)
+        core.binding_selftest(ctx, 'Trace_LinSolve', fals, 'recorded_calls', extra_env={'VERIF_MODE': 'recs'})
+
+
 def recorded_calls(ctx, rep):
     quiet_pydl()
     rng = random.Random(ctx.seed)
@@ -1124,6 +1289,7 @@ def recorded_calls(ctx, rep):
         rep('recorded-%s-%s' % (rec['kind'], why.split()[0]),
             {'what': 'recorded %s call rejected by Trace_LinSolve (%s): %s' % (rec['kind'], why, brief),
              'kind': 'record', 'record': rec}, finding=dev or None)
+    recorded_selftest(ctx, [r for k, r in enumerate(recs) if k not in judged], rng)
     for kind in ('wls', 'wlsf', 'pcomp', 'pca'):
         first = next(r for r in recs if r['kind'] == kind)
         ctx.sample({'recorded_' + kind: {x: first[x] for x in list(first)[:6]}})
@@ -1140,11 +1306,21 @@ def run(ctx):
                 'judged by Trace_LinSolve')
     ctx.assumptions = [
         'part (a) computechi2 is model-checked: exact rationals from TLC for N <= 5, M <= 3, |A| <= 3, sqivar <= 3 '
-        '(32-bit TLC integers bound the instance); floats are accepted within 1e-8 relative',
+        '(32-bit TLC integers bound the instance)',
+        'COMPARISON RULE (LinSolve.tla, "THE COMPARISON RULE"): a float agrees with the exact value e iff |obs - e| <= 1e-8 * '
+        'max(|e|, natural scale), with the natural scales computed exactly by TLC (NatScale: coefficient j: sum_k |M^-1|_jk '
+        '(|A|^T W |b|)_k, fitted value i: sum_j |A_ij| scale_j; rescaled with the case in the unit / shift variants by '
+        'ScaleHomogeneous); covariance entries relative to sqrt(covar_jj covar_kk), variances to themselves.  EXACT ZEROS ARE '
+        'NOT DEMANDED beyond tol x scale (b orthogonal to a column: any backward-stable solver returns round-off there).  '
+        'chi2, a sum of squared residuals, is judged relative to itself plus round-off-level multiples of its natural scale '
+        'Q = sum w_i (|b_i| + scale_i)^2: 1e-9 chi2 + 256 eps sqrt(chi2 Q) + 1e-22 Q (tol x Q would hide a cancelling '
+        'evaluation of chi2 such as b.b - x.(M^T b))',
+        'binding self-tests: accepted recorded calls with one falsified field and accepted HMF traces with one falsified / '
+        'dropped event must all be refused by Trace_LinSolve (counts in coverage.parts.selftest_*), else exit 2',
         'every enumerated system is also replayed scaled by powers of two (A*2^3, b*2^20, sqivar*2^16) or with the model '
         'vector A.z*2^24 added to b (nearly exact fit of a large signal); the expected values are TLC\'s, rescaled / shifted '
         'as the TLC-checked laws HomogeneousInA/B/S and ModelShift say (checked with factor 2 and z = (1,-1,2); they are '
-        'polynomial identities); chi2 is compared with an absolute tolerance tied to the residual scale, not to |b*sqivar|^2',
+        'polynomial identities)',
         'every enumerated system is also replayed in other units: A * 2^ka, b * 2^kb, sqivar * 2^ks with ka, kb in -60..60 '
         'and ks in -40..40 drawn per case (expected values rescaled by the same homogeneity laws; down-scalings are the laws '
         'read backwards - they are homogeneous polynomial identities, TLC checks them with factor 2); all tolerances are '
@@ -1164,7 +1340,8 @@ def run(ctx):
         'seeds under three histories of the global numpy RNG: twins constructed and solved from different RNG states; both '
         'twins constructed first, RNG used, solve A, RNG used, solve B; construct A, solve an unrelated HMF, solve A versus '
         'a fresh construct-and-solve - each on data for which an UNSEEDED control pair under the same history differs',
-        'code -> spec for (a) abstracts every float to the rational with denominator <= 10^4 within 1e-9; systems are '
+        'code -> spec for (a) abstracts every float to the rational q with denominator <= 10^4; dev = |obs - q| in units of '
+        '1e-9 * max(|q|, natural scale) must be <= 1 and the harness-measured natural scales must equal TLC\'s exact ones; systems are '
         'drawn so that the exact denominators stay below that bound',
         'HARNESS-EVALUATED numeric relations (level exploration, not model checking): pcomp laws on scaled integers '
         '(1e-5; 1e-4 on squared correlations) and at 1e-9 against TLC\'s exact scatter matrix; HMF chi-square change '
